@@ -53,7 +53,7 @@ def c01_program_oracle(check, case, sc, stats=None):
             if e["kind"] == "cx":
                 psi = rq.apply(psi, ("cx", idx[e["hs"][0]], idx[e["hs"][1]]))
             elif e["kind"] in ("rx", "ry", "rz"):
-                psi = rq.apply(psi, (e["kind"], idx[e["hs"][0]], float(np.float32(e["angle"]))))
+                psi = rq.apply(psi, (e["kind"], idx[e["hs"][0]], float(e["angle"])))
             else:
                 psi = rq.apply(psi, (e["kind"], idx[e["hs"][0]]))
         return psi
